@@ -116,7 +116,7 @@ def gen_msg(rng):
         for _ in range(rng.randint(1, 3)):
             k = rng.choice(['a', 'time', 'b/c', '+d', 'é', 'msgid', 'x-y'])
             v = rng.choice([None, '', 'v', 'a b', 'a;b', 'a\\b', '\\', 'x\ny', 'x\ry', '\\s', 'é ', '2020-01-02T03:04:05.678Z',
-                            '2020-13-02T03:04:05.678Z', ' ', ';', '\\\\', 'a\\:'])
+                            '2020-13-02T03:04:05.678Z', ' ', ';', '\\\\', 'a\\:', 'x==', '=lead', 'k=v', 'a=b=c;d', '='])
             tags[k] = v
     prefix = rng.choice(['', '', 'nick!user@host', 'irc.server', 'é!u@h', 'n'])
     nargs = rng.choice([0, 0, 1, 1, 2, 3, 5, 15])
